@@ -706,6 +706,17 @@ pub fn arb_c03_bp() -> BoxedStrategy<C03Bp> {
         .boxed()
 }
 
+/// The same scripts on serial framing only (C06: every emitted frame is complete and ends with
+/// its CRC, also when the line takes it in pieces)
+pub fn arb_c03_bp_rtu() -> BoxedStrategy<C03Bp> {
+    arb_c03_bp()
+        .prop_map(|mut c| {
+            c.framing = Fr::Rtu;
+            c
+        })
+        .boxed()
+}
+
 /// Oracle: whatever the timing, the bytes on the wire are a concatenation of complete request
 /// frames, each the reference encoding of a distinct submitted request, in submission order;
 /// every request completes; a request of which no frame is on the wire completed with an error.
@@ -995,6 +1006,118 @@ pub fn arb_c12() -> BoxedStrategy<StreamCase> {
             })
         })
         .boxed()
+}
+
+/// C12 with the largest timeout there is: "no timeout" is a timeout too. The reply arrives after
+/// a few ms, so the request must succeed, and so must an ordinary request after it.
+pub fn c12_unbounded_timeout(_ctx: &crate::runner::Ctx) -> crate::runner::SearchReport {
+    use crate::runner::{hash_of, Failure, SearchReport};
+    let mut rep = SearchReport::empty(
+        "c12_unbounded_timeout",
+        "enumeration: {MBAP, RTU} x 3 submission styles x 8 request kinds: a request with the timeout Duration::MAX whose genuine reply arrives after 5 ms must succeed with the reply's values, and an ordinary request submitted afterwards must succeed as well (the channel is still there).",
+    );
+    let kinds = [
+        ReqSpec::Read { kind: Kind::ReadCoils, start: 3, count: 9 },
+        ReqSpec::Read { kind: Kind::ReadDiscrete, start: 0, count: 1 },
+        ReqSpec::Read { kind: Kind::ReadHolding, start: 65530, count: 6 },
+        ReqSpec::Read { kind: Kind::ReadInput, start: 7, count: 2 },
+        ReqSpec::WriteCoil { addr: 5, value: true },
+        ReqSpec::WriteReg { addr: 6, value: 0xBEEF },
+        ReqSpec::WriteCoils { start: 1, values: vec![true, false, true] },
+        ReqSpec::WriteRegs { start: 2, values: vec![1, 2, 3] },
+    ];
+    for framing in [Fr::Mbap, Fr::Rtu] {
+        for style in [Style::Future, Style::Callback, Style::Ffi] {
+            for (k, req) in kinds.iter().enumerate() {
+                let case = serde_json::json!({"framing": format!("{:?}", framing), "style": format!("{:?}", style), "request": format!("{:?}", req.kind())});
+                let reply = |seed: u64| PeerAct::Frame {
+                    delay_ms: 5,
+                    tx: TxSel::Echo,
+                    pdu: PduSel::Genuine(seed),
+                    split: None,
+                };
+                let run = run_client(&CliCase {
+                    cfg: CliConfig {
+                        framing,
+                        decode: Decode::NOTHING,
+                        max_timeouts: Some(2),
+                        queue: 16,
+                        retry_ms: 100_000_000,
+                    },
+                    conns: vec![ConnPlan {
+                        peer: PeerPlan {
+                            per_request: vec![vec![reply(11 + k as u64)], vec![reply(99)]],
+                            default: vec![],
+                        },
+                        fail_write_at: None,
+                        write_stall: None,
+                        unsolicited: vec![],
+                    }],
+                    ops: vec![
+                        COp::Submit {
+                            id: 0,
+                            style,
+                            handle: 0,
+                            unit: 1,
+                            timeout_ms: u32::MAX,
+                            req: req.clone(),
+                        },
+                        COp::Advance(50),
+                        COp::Submit {
+                            id: 1,
+                            style: Style::Future,
+                            handle: 0,
+                            unit: 1,
+                            timeout_ms: 100,
+                            req: ReqSpec::Read {
+                                kind: Kind::ReadHolding,
+                                start: 0,
+                                count: 1,
+                            },
+                        },
+                        COp::Advance(500),
+                    ],
+                    select_seed: k as u64,
+                    pre_enable: true,
+                });
+                rep.stats.evaluations += 1;
+                let r0 = run.ledger.completions.iter().find(|c| c.id == 0).map(|c| c.res.clone());
+                let r1 = run.ledger.completions.iter().find(|c| c.id == 1).map(|c| c.res.clone());
+                if !matches!(r0, Some(Res::Ok(_))) || !matches!(r1, Some(Res::Ok(_))) {
+                    rep.failure = Some(Failure {
+                        message: format!(
+                            "{}: a request with timeout Duration::MAX answered after 5 ms completed with {:?}; the ordinary request after it with {:?} (task ended: {})",
+                            case, r0, r1, run.task_ended
+                        ),
+                        case,
+                        hang: false,
+                    });
+                    return rep;
+                }
+                rep.stats.nontrivial_total += 1;
+                rep.stats.distinct.insert(hash_of(&format!("{}", case)));
+                if rep.stats.samples.is_empty() {
+                    rep.stats.samples.push(case);
+                }
+            }
+        }
+    }
+    rep.exhaustive = true;
+    rep
+}
+
+pub fn c12_unbounded_timeout_replay(_v: &serde_json::Value) -> CaseResult {
+    let ctx = crate::runner::Ctx {
+        tier: crate::runner::Tier::Quick,
+        seed: 1,
+        scale: 1.0,
+        threads: 4,
+        verif_dir: std::path::PathBuf::from("/verif"),
+    };
+    match c12_unbounded_timeout(&ctx).failure {
+        Some(f) => Err(f.message),
+        None => Ok(CaseOk::new()),
+    }
 }
 
 pub struct StreamJudgement {
